@@ -71,6 +71,13 @@ func (fr *Frame) doCall(call *ssa.CallCommon, instr *ssa.Call, pos token.Pos) Va
 	}
 	switch f := call.Value.(type) {
 	case *ssa.Builtin:
+		// builtins can be addressed by site clauses too (at call append ...)
+		if fr.contract != nil && len(fr.contract.Sites) > 0 {
+			short := f.Name()
+			fr.callOrd[short]++
+			fr.curQual = short
+			fr.siteClauses(short, fr.callOrd[short], "before", args, nil, Val{}, pos)
+		}
 		return fr.builtin(f.Name(), call, args, resT, pos)
 	case *ssa.Function:
 		return fr.callFunc(f, nil, args, resT, pos)
